@@ -1,6 +1,14 @@
 (* GENERATED from /repo/decorator/load.go and decorator.go -- do not edit *)
-From Coq Require Import Bool.
+From Coq Require Import Bool List String.
+Import ListNotations.
+From DV Require Import Model.Decision.
+Local Open Scope string_scope.
 
 Definition save_shape_ok : bool := true.
 Definition save_entry_points_ok : bool := true.
 Definition filenames_recorded_ok : bool := true.
+
+Definition save_src : list lstmt :=
+  [LBind "r := NewRestorerWithImports(p.PkgPath, resolver)";
+   LFor "p.Syntax" [LBind "buf := &bytes.Buffer{}"; LCall "NewRestorerWithImports(p.PkgPath,resolver).Fprint(&bytes.Buffer{},file)"; LCall "writeFile(p.Decorator.Filenames[file],&bytes.Buffer{}.Bytes(),0666)"];
+   LRetNil].
